@@ -99,6 +99,8 @@ def _validate_values_shape(atom):
     if len(f.params) < 2:
         return False
     me, arg = f.params[0], f.params[1]
+    from .symtext import Expander
+    x = Expander(f)
     for loop in ast.walk(f.node):
         if not (isinstance(loop, ast.For) and isinstance(loop.iter, ast.Name) and loop.iter.id == arg and isinstance(loop.target, ast.Name)):
             continue
@@ -107,7 +109,7 @@ def _validate_values_shape(atom):
                 continue
             conv = [c for st in tr.body for c in ast.walk(st) if isinstance(c, ast.Call) and ast.unparse(c.func) == "dtypes.get"
                     and len(c.args) == 2 and isinstance(c.args[0], ast.Name) and c.args[0].id == loop.target.id
-                    and ast.unparse(c.args[1]) in ("%s.dtype" % me, "%s._dtype" % me)]
+                    and x.text(c.args[1]) in ("%s.dtype" % me, "%s._dtype" % me)]
             catch_all = [h for h in tr.handlers if h.type is None or ast.unparse(h.type) in ("Exception", "BaseException")]
             ret_false = [h for h in catch_all if any(isinstance(x, ast.Return) and isinstance(x.value, ast.Constant) and x.value.value is False
                                                      for x in ast.walk(h))]
@@ -174,9 +176,17 @@ def clone_values_conform(atom, f, node, site):
 
 def export_leaf_appends_clones(atom, f, node, site):
     """Section.export_leaf -> <parent clone>.append(child): child is `self` only in the first iteration, where the guard
-    `curr != self` is false; afterwards child is the fresh clone built in the previous iteration."""
-    return f.short == "section.BaseSection.export_leaf" and bool(site.chain) and site.evkind == "call" and _callee(site) == "append" \
-        and not _is_self(f, _recv(site)) and isinstance(_recv(site), ast.Name)
+    `curr != self` is false; afterwards child is the fresh clone built in the previous iteration. The append may sit in a
+    private helper of the class that export_leaf calls with the clone as argument."""
+    if f.short != "section.BaseSection.export_leaf" or not site.chain or site.evkind != "call":
+        return False
+    if _callee(site) == "append":
+        return not _is_self(f, _recv(site)) and isinstance(_recv(site), ast.Name)
+    callee = _callee(site)
+    if callee.startswith("_") and not callee.startswith("__") and _is_self(f, _recv(site)) and len(site.chain) >= 2:
+        inner = _chain_calls(site)[1]
+        return inner.endswith(".append") and not inner.startswith("self.")
+    return False
 
 
 ATOM_CONTRACTS = [
